@@ -984,6 +984,70 @@ def _omen_reader_strip(ctx, rule):
     return c07.r5_strip_discipline(ctx, rule, only=c11._OMEN_READERS, floor=4)
 
 
+def r25_cracker_plumbing(ctx, rule):
+    """Three pieces of glue inside the Markov generator:
+
+      * MarkovCracker.__init__ takes max_level from grammar['max_level'] and the length of an initial n-gram from grammar['ngram'] - 1
+        (seed C10-ea merged the two assignments into one tuple assignment with the right-hand sides swapped: every entry above level
+        ngram - 1 is silently never visited);
+      * GuessStructure._format_guess returns the string spelled by the parse tree and nothing else - no normalisation, case mapping
+        or stripping of the result (seed C10-eb: unicodedata.normalize('NFC', guess) - the emitted string is no longer the model's);
+      * GuessStructure._find_cp keeps no memo of its own: its answer depends on ip, top_level AND bottom_level, and a dictionary keyed
+        by less hands an exact-level lookup the answer of a range lookup (seeds C11-eb / C18-eb / C04-eb)."""
+    ok = True
+    q1 = MC + '__init__'
+    fn = ctx.fn(q1)
+    ctx.stats['functions'].add(q1)
+    want = {'self.max_level': "grammar['max_level']", 'self.length_ip': "grammar['ngram'] - 1"}
+    got = {}
+    gparam = params(fn)[1] if len(params(fn)) > 1 else 'grammar'
+    for st in walk_local(fn):
+        if isinstance(st, ast.Assign) and len(st.targets) == 1:
+            t, v = st.targets[0], st.value
+            pairs = list(zip(t.elts, v.elts)) if isinstance(t, ast.Tuple) and isinstance(v, ast.Tuple) and len(t.elts) == len(v.elts) else [(t, v)]
+            for tt, vv in pairs:
+                if U(tt) in want:
+                    got[U(tt)] = (U(vv).replace(gparam + '[', 'grammar['), st)
+    for k, w in want.items():
+        if k not in got:
+            ok = False
+            ctx.unk(rule, q1, '%s is not bound in a form this rule knows' % k)
+        elif got[k][0] != w:
+            ok = False
+            if got[k][0] in want.values():
+                ctx.bad(rule, q1, '%s = %s' % (k, got[k][0]), 'max_level bounds every level walk, length_ip is the length of an initial n-gram (ngram - 1): '
+                        'the two values are exchanged', None, got[k][1], firm=True)
+            else:
+                ctx.unk(rule, q1, '%s = %s' % (k, got[k][0]))
+    q2 = GS + '_format_guess'
+    f2 = ctx.fn(q2)
+    ctx.stats['functions'].add(q2)
+    for r in [x for x in walk_local(f2) if isinstance(x, ast.Return) and x.value is not None]:
+        v = r.value
+        plain = isinstance(v, ast.Name) or (isinstance(v, ast.Call) and U(v.func) == "''.join") or isinstance(v, ast.BinOp)
+        if not plain:
+            ok = False
+            if isinstance(v, ast.Call):
+                ctx.bad(rule, q2, 'the guess is returned as ' + U(v)[:60], 'what is emitted is the string the parse tree spells, character for character',
+                        None, r, firm=True)
+            else:
+                ctx.unk(rule, q2, 'return value %s is not of a form this rule knows' % U(v)[:50])
+    q3 = GS + '_find_cp'
+    f3 = ctx.fn(q3)
+    ctx.stats['functions'].add(q3)
+    p3 = params(f3)
+    for st in walk_local(f3):
+        tg = st.targets[0] if isinstance(st, ast.Assign) and len(st.targets) == 1 else None
+        if isinstance(tg, ast.Subscript) and isinstance(tg.value, ast.Attribute) and U(tg.value.value) == 'self':
+            key_names = {x.id for x in ast.walk(tg.slice) if isinstance(x, ast.Name)}
+            if len(p3) >= 4 and p3[3] not in key_names:
+                ok = False
+                ctx.bad(rule, q3, 'memo %s[%s] = ..' % (U(tg.value), U(tg.slice)[:40]), 'the key leaves out %s: lookups for the last character (an exact '
+                        'level) and for inner characters (a range of levels) share entries' % p3[3], None, st, firm=True)
+    if ok:
+        ctx.ok(rule, MCF, 'max_level / length_ip come from their own model fields; _format_guess returns the spelled string; _find_cp keeps no partial-key memo')
+
+
 def r23_cursor_starts(ctx, rule):
     """The two cursors of the level walk ([level, index] into the LN and IP tables) start at the FIRST entry of a level: wherever a
     cursor is set from a constant index, that index is 0.  (Mutation sweep: `self.cur_len = [self.start_length, 1]` skipped the first
@@ -1120,7 +1184,9 @@ def rules(tier):
             # mutation sweep: the length cursor started at index 1
             ('C10.R23', _shared_rule('c10', 'r23_cursor_starts')),
             # C15-eb: a second writer of the OMEN memo
-            ('C10.R24', _shared_rule('plumbing', 'who_may'))]
+            ('C10.R24', _shared_rule('plumbing', 'who_may')),
+            # C10-ea / C10-eb: max_level and length_ip exchanged; the emitted string NFC-normalised
+            ('C10.R25', _shared_rule('c10', 'r25_cracker_plumbing'))]
 
 
 META = {
